@@ -13,6 +13,10 @@ packet); the arithmetic and the recon = decode premise (C01) are not decided her
               the branch; the same selection idiom is cross-checked at every sibling site of the encoder (polarity and variant)
   C26.SOURCE  the source compared is the submitted picture: the saved unfiltered planes when temporal filtering replaced the
               picture in place, the (unscaled) input picture otherwise
+  C26.NEED    the statistics are one of the consumers of the frame's final reconstruction, next to the reference list and the recon
+              output: wherever the application of an in-loop filter to the recon is made conditional on the recon being needed
+              (a guard that names recon_enabled or is_used_as_reference_flag around a frame-level filter call), the guard also
+              names stat_report - otherwise the statistic of a non-reference frame is taken on a picture the decoder filters further
   C26.FLOW    packetization copies each statistic from the member of the same plane, under stat_report, and
               psnr_calculations runs under stat_report after the last in-loop filter of the frame (no recon-modifying filter call is
               reachable after it in the same kernel iteration)
@@ -24,7 +28,7 @@ PID = 'C26'
 
 META = {
     'technique': 'forward dataflow of colour-plane tags over the event-CFG (copy-paste / plane-consistency analysis), sibling cross-check of the recon-buffer selection idiom over the whole encoder, control-dependence and CFG reachability for the placement of the statistics call',
-    'text': 'Decides structural necessary conditions of exact per-frame SSE reporting: inside psnr_calculations no statement mixes colour planes (source buffer, recon buffer, strides, accumulator and result member all of one plane; accumulators reset between planes), the recon buffer is selected by is_used_as_reference_flag exactly as at every sibling site and in the bit depth of the branch, the source is the saved unfiltered picture when temporal filtering is on, the three values reach the packet members of the same plane under stat_report, and the computation is placed after the last in-loop filter. It does not decide the arithmetic itself (squares, 32-bit truncation, loop extents versus padding) nor that the encoder recon equals what a decoder reconstructs (C01).',
+    'text': 'Decides structural necessary conditions of exact per-frame SSE reporting: inside psnr_calculations no statement mixes colour planes (source buffer, recon buffer, strides, accumulator and result member all of one plane; accumulators reset between planes), the recon buffer is selected by is_used_as_reference_flag exactly as at every sibling site and in the bit depth of the branch, the source is the saved unfiltered picture when temporal filtering is on, the three values reach the packet members of the same plane under stat_report, the computation is placed after the last in-loop filter, and every guard that skips a frame-level filter when the recon is not needed counts the statistics as a consumer. It does not decide the arithmetic itself (squares, 32-bit truncation, loop extents versus padding) nor that the encoder recon equals what a decoder reconstructs (C01).',
     'note': 'ssim_calculations shares the structure and is analysed as a sibling (its values are not part of the property statement)',
     'ref': 'DESIGN.md section 9.9',
 }
@@ -32,6 +36,7 @@ META = {
 PLANES = ('Y', 'CB', 'CR')
 IDX_ARRAYS = ('PictureParentControlSet.save_enhanced_picture_ptr', 'PictureParentControlSet.save_enhanced_picture_bit_inc_ptr')
 STAT_FIELDS = {'luma_sse': 'Y', 'cb_sse': 'CB', 'cr_sse': 'CR', 'luma_ssim': 'Y', 'cb_ssim': 'CB', 'cr_ssim': 'CR'}
+APPLY = ('svt_av1_cdef_frame', 'av1_cdef_frame16bit', 'svt_av1_loop_restoration_filter_frame', 'svt_av1_loop_filter_frame', 'svt_av1_superres_upscale_frame')
 FILTERS = ('svt_av1_loop_restoration_filter_frame', 'svt_av1_cdef_frame', 'svt_av1_loop_filter_frame', 'svt_av1_superres_upscale_frame')
 
 
@@ -393,6 +398,27 @@ def run(P, rep, tier):
         rep.ob('C26.SOURCE', 'psnr_calculations/input@%s' % ev.get('l'), lf == 'PictureParentControlSet.enhanced_unscaled_picture_ptr', psnr.loc(ev),
                'input picture is %s' % (lf or pstr(ev['e'])[:40]))
     rep.floor('C26.SOURCE', 8)
+
+    # ---------------- NEED
+    RECON_EN = 'EbSvtAv1EncConfiguration.recon_enabled'
+    nneed = 0
+    for g in P.fns:
+        if g.lib != 'Encoder' or g.nocfg or g in C.dead:
+            continue
+        for ev, nm in g.calls(APPLY):
+            for kind, cond, line in g.ctl_chain(ev):
+                if kind != 'if' or cond is None:
+                    continue
+                flds = {x[1] for x in subexprs(cond) if x[0] == 'm'}
+                if RECON_EN in flds or (FLAG in flds and len(flds) > 1 and any('restoration' in x or 'recon' in x for x in flds)):
+                    nneed += 1
+                    ok = 'EbSvtAv1EncConfiguration.stat_report' in flds
+                    rep.ob('C26.NEED', '%s/%s@%d' % (g.name, nm, line), ok, g.loc(ev),
+                           ('%s is applied whenever the final recon is consumed, statistics included' % nm) if ok else
+                           ('%s is skipped unless %s: with stat_report on, the SSE of a frame that is neither a reference nor output as recon is computed on a '
+                            'picture the decoder filters further' % (nm, ' || '.join(sorted(x.split('.')[1] for x in flds if x.split('.')[1] not in ('parent_pcs_ptr', 'seq_header', 'static_config', 'scs_ptr'))))))
+    rep.analysed['need_guards'] = nneed
+    rep.floor('C26.NEED', 1)
 
     # ---------------- FLOW
     pk = P.fn('packetization_kernel')
